@@ -10,7 +10,7 @@ for d in [a for a in sys.argv[1:] if not a.startswith("--")]:
     line = [l for l in p.stdout.splitlines() if l.startswith("{")]
     out = json.loads(line[-1]) if line else {"error": p.stdout[-500:]}
     viol = out.get("violation_lines") or []
-    res = "MISSED (check exited 0)" if not viol else ("VIOLATION no-failing-input-found" if "no-failing-input-found" in viol[0] else "VIOLATION with concrete replay")
+    res = ("check exited 0" if "_h" in os.path.basename(d) else "MISSED (check exited 0)") if not viol else ("VIOLATION no-failing-input-found" if "no-failing-input-found" in viol[0] else "VIOLATION with concrete replay")
     print(os.path.basename(d), res, out.get("check_s"), out.get("summary"))
     m = json.load(open(os.path.join(d, "meta.json")))
     m.setdefault("retests", []).append({"when": time.strftime("%Y-%m-%d %H:%M"), "mode": "in-repo" if "--in-repo" in extra else "scratch copy",
